@@ -297,6 +297,96 @@ theorem strpbrkOuter_eq {st : St} (h : AllRd st) (src slen dmax dest : Nat)
         rw [ih]
         cases firstIn st.data src slen (dest+1) n <;> simp <;> omega
 
+
+/-! ### what the code of `strpbrk_s` computes on ANY memory (the `len` test FOLLOWS the compare) -/
+
+/-- the inner loop as a pure function: `none` = fell out at the set's NUL, `some true` = hit,
+`some false` = `len` ran out (the C returns ESNOTFND for the WHOLE search there) -/
+def pbrkInnerF (d : Nat → Nat) (c ps : Nat) : Nat → Option Bool
+  | 0 => if d ps = 0 then none else if c = d ps then some true else some false
+  | len+1 => if d ps = 0 then none else if c = d ps then some true else pbrkInnerF d c (ps+1) len
+
+/-- the outer loop as a pure function -/
+def pbrkOuterF (d : Nat → Nat) (src slen p : Nat) : Nat → Option Nat
+  | 0 => none
+  | n+1 =>
+    if d p = 0 then none
+    else match pbrkInnerF d (d p) src slen with
+      | some true => some 0
+      | some false => none
+      | none => (pbrkOuterF d src slen (p+1) n).map (· + 1)
+
+theorem strpbrkInner_code_eq {st : St} (h : AllRd st) (dest len ps : Nat) :
+    exec (strpbrkInner dest len ps) st = .ok (pbrkInnerF st.data (st.data dest) ps len, st) := by
+  induction len generalizing ps with
+  | zero =>
+    unfold strpbrkInner
+    simp only [exec_bind, exec_load_all h, pbrkInnerF]
+    by_cases h0 : st.data ps = 0
+    · simp [h0]
+    · simp only [h0, if_false, exec_bind, exec_load_all h]
+      by_cases he : st.data dest = st.data ps <;> simp [he]
+  | succ n ih =>
+    unfold strpbrkInner
+    simp only [exec_bind, exec_load_all h, pbrkInnerF]
+    by_cases h0 : st.data ps = 0
+    · simp [h0]
+    · simp only [h0, if_false, exec_bind, exec_load_all h]
+      by_cases he : st.data dest = st.data ps
+      · simp [he]
+      · simp only [he, if_false]; exact ih _
+
+theorem strpbrkOuter_code_eq {st : St} (h : AllRd st) (src slen dmax dest : Nat) :
+    exec (strpbrkOuter src slen dmax dest) st =
+      .ok ((match pbrkOuterF st.data src slen dest dmax with
+            | some i => (EOK, dest + i) | none => (ESNOTFND, 0)), st) := by
+  induction dmax generalizing dest with
+  | zero =>
+    unfold strpbrkOuter
+    simp only [exec_bind, exec_load_all h, pbrkOuterF]
+    split <;> simp
+  | succ n ih =>
+    unfold strpbrkOuter
+    simp only [exec_bind, exec_load_all h, pbrkOuterF]
+    by_cases h0 : st.data dest = 0
+    · simp [h0]
+    · simp only [h0, if_false, exec_bind, strpbrkInner_code_eq h]
+      cases hi : pbrkInnerF st.data (st.data dest) src slen with
+      | none =>
+        simp only []
+        rw [ih]
+        cases pbrkOuterF st.data src slen (dest+1) n <;> simp <;> omega
+      | some b => cases b <;> simp
+
+/-! ## facts about `findSub` used by `strstr_s`'s `slen > dmax` path -/
+
+theorem subAt_self (f : Nat → Nat) (d : Nat → Nat) (p m : Nat) : subAt f d p p m = true := by
+  induction m generalizing p with
+  | zero => rfl
+  | succ m ih => simp [subAt, ih]
+
+/-- a haystack shorter than the needle (of non-zero cells) contains no occurrence -/
+theorem findSub_short_haystack (d : Nat → Nat) (q m p n : Nat)
+    (hq : ∀ j, j < m → d (q+j) ≠ 0) (hl : scanLen d p n < m) :
+    findSub id d q m p n = none := by
+  induction n generalizing p with
+  | zero => rfl
+  | succ n ih =>
+    simp only [findSub]
+    have hno : ¬ (m ≤ n+1 ∧ subAt id d p q m = true) := by
+      rintro ⟨hm, hs⟩
+      have hlt : scanLen d p (n+1) < n+1 := by omega
+      have hz := scanLen_zero d p (n+1) hlt
+      have := (subAt_iff id d p q m).1 hs (scanLen d p (n+1)) hl
+      simp only [id] at this
+      exact hq _ hl (by rw [← this]; exact hz)
+    simp only [hno, if_false]
+    by_cases h0 : d p = 0
+    · simp [h0]
+    · simp only [h0, if_false]
+      rw [scanLen_succ_of_ne _ _ _ h0] at hl
+      rw [ih (p+1) (by omega)]; rfl
+
 /-! ## `strispassword_s` -/
 
 /-- the punctuation ranges the password scan accepts -/
